@@ -234,6 +234,24 @@ func runC10(c *core.Ctx) core.Meta {
 			}
 		}
 	}
+	// the physical page returned to a device is the one recorded for the page being removed
+	pint.Instrs(func(fn *ssa.Function, in ssa.Instruction) {
+		cc := core.CallOf(in)
+		if cc == nil || !cc.IsInvoke() || cc.Method.Name() != "addSinglePAddr" {
+			return
+		}
+		if strings.HasSuffix(core.FuncName(fn), ".setInitialAddress") {
+			return // initial population of the free list
+		}
+		st3.Instances++
+		pv := prov.Of(cc.Args[0])
+		ok := strings.HasSuffix(pv, ".PAddr") && strings.Contains(pv, "vAddrToPageMapping[") && !regexp.MustCompile(`[-+*]`).MatchString(strings.ReplaceAll(pv, "(1<<", ""))
+		st3.Ob(ok)
+		st3.Sample("%s: returns %s to the device", core.FuncName(fn), short(pv))
+		if !ok {
+			c.ReportAt("R10.3", fn, in.Pos(), "release:paddr-source", "the physical page returned to the device is "+short(pv)+", not the PAddr recorded in the mirror for the very page being removed: pages of a buffer are not physically consecutive (fragmented free list, Remap / Distribute, unified devices), so live pages of other buffers are put on the free list and handed out again")
+		}
+	})
 	pint.Instrs(func(fn *ssa.Function, in ssa.Instruction) {
 		f := writtenField(in)
 		if f == nil || f.Name() != "availablePAddrs" {
